@@ -15,7 +15,7 @@ def safely(rep, what, f, *a):
         return None
 
 
-RULE = ("all kinds of strings x {layout='copy_all' via init keyword, config string, parse(layout=) committed or not}; for "
+RULE = ("all kinds of strings x {layout='copy_all' via init keyword, config string, parse(layout=) committed or not, .config / .layout assigned after creation}; for "
         "deduced layouts: strings lacking a Twp/Rge, lacking a section, or whose sections are all rejected (colon required "
         "but absent); non-trivial = text that would otherwise split into >= 2 tracts, or a fallback case; distinct by (text, channel)")
 TRUSTED = []
@@ -37,6 +37,19 @@ def check_forced(rep, text, extra_cfg):
     d4 = pytrs.PLSSDesc(text, config=extra_cfg)
     d4.parse(layout='copy_all')
     chans['parse(layout=) committed'] = d4
+    # requested after creation: assigned to .config (str or Config) or to .layout, on an unparsed or already parsed object
+    d5 = pytrs.PLSSDesc(text, config=extra_cfg, wait_to_parse=True)
+    d5.config = 'copy_all'
+    d5.parse()
+    chans['.config assigned before the first parse'] = d5
+    d6 = pytrs.PLSSDesc(text, config=extra_cfg)
+    d6.config = pytrs.Config((extra_cfg + ',' if extra_cfg else '') + 'copy_all')
+    d6.parse()
+    chans['.config assigned (Config object) after a parse'] = d6
+    d7 = pytrs.PLSSDesc(text, config=extra_cfg)
+    d7.layout = 'copy_all'
+    d7.parse()
+    chans['.layout assigned after a parse'] = d7
     for name, d in chans.items():
         if not one_whole(d.tracts, pp) or d.current_layout != 'copy_all':
             rep.violation('failing-input', {'text': text, 'config': extra_cfg, 'channel': name,
